@@ -170,6 +170,10 @@ class StoreMachine(Machine):
     def exc_key(self, what, e):
         return '-'
 
+    def o6_cfg(self, cfg):
+        """The configuration under which two in-memory snapshots are compared in full."""
+        return cfg
+
     def o6_view(self, snap):
         """The part of a snapshot that is the caller's model (not the writer's bookkeeping)."""
         return snap
@@ -228,7 +232,7 @@ class StoreMachine(Machine):
                 want = self.o6_view(want)
                 if not _same(want, now):
                     try:
-                        self.compare(want, now, cfg, 'O6: the write of %r failed with an '
+                        self.compare(want, now, self.o6_cfg(cfg), 'O6: the write of %r failed with an '
                                      'injected %s and left the in-memory model changed'
                                      % (name, ctx.fs.fired[-1][0]))
                     except Violation as v:
